@@ -11,6 +11,7 @@ report kind: 0 metric 1 alert 2 component 3 context 4 operational 5 waveform 6 d
     P  := mod(0 create 1 update 2 delete) D nS S* nC C*
     rep rk ver seq inst(opt) nS S* nC C* nP P*
     begin
+    fin R                                    (second half of the pre-check of a report whose first half saw `initializing`)
     end ver seq inst(opt) nD D* nS S* nC C* nC2 C*
     reset
     dump                                     (complete content: delta against empty tables)
@@ -188,6 +189,15 @@ def stepLine (st : St) (line : String) : St × String :=
       match pReport ns with
       | some (rep, []) =>
         let r := step st (.report rep)
+        (r.1, answer st r.1 r.2)
+      | _ => (st, "bad-op")
+    | none => (st, "bad-op")
+  | "fin" :: rest =>
+    match Io.parseNats rest with
+    | some ns =>
+      match pReport ns with
+      | some (rep, []) =>
+        let r := finishBuffered st rep
         (r.1, answer st r.1 r.2)
       | _ => (st, "bad-op")
     | none => (st, "bad-op")
